@@ -205,9 +205,10 @@ func firstRoot(P *Program, v ssa.Value) ssa.Value {
 }
 
 // isExemption recognises the constructor exemption literal:
-//   -and(eq(pkg(T), pass.Pkg.Path()), Match(ctorIndex, pkg(T), enclosingFunc, name(T)))   (inline form), or
-//   -H(...) for a product helper H whose every possibly-true return implies both conjuncts and whose
-//   every possibly-false return is justified by the negation of a conjunct or a nil check.
+//
+//	-and(eq(pkg(T), pass.Pkg.Path()), Match(ctorIndex, pkg(T), enclosingFunc, name(T)))   (inline form), or
+//	-H(...) for a product helper H whose every possibly-true return implies both conjuncts and whose
+//	every possibly-false return is justified by the negation of a conjunct or a nil check.
 func (c *Ctx) isExemption(l Lit, detail *string) bool {
 	P := c.P
 	if l.Pos {
@@ -762,7 +763,10 @@ func (c *Ctx) ruleSitesPKGO() {
 	rule := "GUARD-SIG(PKGO)"
 	sites := c.sitesOf("packageonly")
 	perCode := map[string]int{}
-	type fam struct{ hasAny, hasPkg string; nArgs int }
+	type fam struct {
+		hasAny, hasPkg string
+		nArgs          int
+	}
 	fams := map[string]fam{
 		"PKGO01": {"(*util.AttachmentsMap).HasAnyTypeAttachments", "(*util.AttachmentsMap).HasPkgTypeAttachment", 2},
 		"PKGO02": {"(*util.AttachmentsMap).HasAnyFunctionAttachments", "(*util.AttachmentsMap).HasPkgFunctionAttachment", 2},
